@@ -1,5 +1,7 @@
 import GufoSnmp.Lemmas.Minimal
 import GufoSnmp.Lemmas.OidLemmas
+import GufoSnmp.Lemmas.EncSpecV3
+import GufoSnmp.Props.C11
 /-!
 # C15 — everything the library encodes, it decodes back unchanged and minimally
 
@@ -97,5 +99,168 @@ theorem msg_community (version : Nat) (hv : version < 128) (m : CommunityMsg) (e
 example : I64 (-(2 ^ 63)) ∧ I64 (2 ^ 63 - 1) ∧ I64 (-32767) := by
   unfold I64; refine ⟨⟨?_, ?_⟩, ⟨?_, ?_⟩, ⟨?_, ?_⟩⟩ <;> omega
 example : encInt 0 = [2, 1, 0] := by decide
+
+/-! ## v3 -/
+
+theorem tlvBytes_head (tag : UInt8) (c : Bytes) : ∃ rest, tlvBytes tag c = tag :: rest := by
+  unfold tlvBytes tagLenBytes
+  split
+  · exact ⟨_, rfl⟩
+  · split <;> exact ⟨_, rfl⟩
+
+theorem encInt_small (v : Nat) (hv : v < 128) : ([UInt8.ofNat tagInt, 1, UInt8.ofNat v] : Bytes) = encInt v := by
+  unfold encInt intContent
+  by_cases h0 : (v : Int) = 0
+  · have : v = 0 := by omega
+    subst this; decide
+  · rw [if_neg h0, if_pos (by omega)]
+    have : posBytes (v : Int).toNat = [UInt8.ofNat v] := by
+      unfold posBytes
+      have : (v : Int).toNat = v := by omega
+      rw [this, dif_pos (by omega), if_neg (by omega), Nat.mod_eq_of_lt (by omega)]
+    rw [this]; rfl
+
+/-- USM security parameters round-trip -/
+theorem usm_roundtrip (u : Usm) (hb : I64 u.engineBoots) (ht : I64 u.engineTime) (hl : (encUsm u).length < 65536) :
+    usmTryFrom (encUsm u) = .ok u := by
+  unfold encUsm at hl ⊢
+  have hge := tlvBytes_length_ge 0x30
+    (tlvBytes (UInt8.ofNat tagOctetString) u.engineId ++ (encInt u.engineBoots ++ (encInt u.engineTime ++
+      (tlvBytes (UInt8.ofNat tagOctetString) u.userName ++ (tlvBytes (UInt8.ofNat tagOctetString) u.authParams ++
+        tlvBytes (UInt8.ofNat tagOctetString) u.privacyParams)))))
+  have g1 := tlvBytes_length_ge (UInt8.ofNat tagOctetString) u.engineId
+  have g2 := tlvBytes_length_ge (UInt8.ofNat tagOctetString) u.userName
+  have g3 := tlvBytes_length_ge (UInt8.ofNat tagOctetString) u.authParams
+  have g4 := tlvBytes_length_ge (UInt8.ofNat tagOctetString) u.privacyParams
+  simp only [List.length_append] at hge
+  unfold usmTryFrom
+  have := fromBer_seq (tlvBytes (UInt8.ofNat tagOctetString) u.engineId ++ (encInt u.engineBoots ++ (encInt u.engineTime ++
+      (tlvBytes (UInt8.ofNat tagOctetString) u.userName ++ (tlvBytes (UInt8.ofNat tagOctetString) u.authParams ++
+        tlvBytes (UInt8.ofNat tagOctetString) u.privacyParams))))) [] (by simp only [List.length_append]; omega)
+  simp only [List.append_nil] at this
+  rw [this]
+  simp only [bind_ok, List.isEmpty_nil, Bool.not_true, Bool.false_eq_true, if_false]
+  rw [fromBer_octets _ _ (by omega)]
+  simp only [bind_ok]
+  rw [fromBer_encInt _ hb.1 hb.2]
+  simp only [bind_ok]
+  rw [fromBer_encInt _ ht.1 ht.2]
+  simp only [bind_ok]
+  rw [fromBer_octets _ _ (by omega)]
+  simp only [bind_ok]
+  rw [fromBer_octets _ _ (by omega)]
+  simp only [bind_ok]
+  have := fromBer_octets u.privacyParams [] (by omega)
+  simp only [List.append_nil] at this
+  rw [this]
+  rfl
+
+/-- msgData round-trips (plaintext scoped PDU or ciphertext OCTET STRING) -/
+theorem msgdata_roundtrip (d : MsgData) (e : Bytes) (he : encMsgData d = some e) (hl : e.length < 65536)
+    (hr : ∀ s, d = .plaintext s → s.pdu.InRange) : msgDataTryFrom e = .ok d := by
+  cases d with
+  | plaintext s =>
+    have hs : encScoped s = some e := he
+    have hfirst : ∃ rest, e = 0x30 :: rest := by
+      unfold encScoped at hs
+      cases hp : encPdu s.pdu with
+      | none => rw [hp] at hs; cases hs
+      | some p =>
+        rw [hp] at hs; simp only [Option.map_some, Option.some.injEq] at hs; subst hs
+        exact tlvBytes_head 0x30 _
+    obtain ⟨rest, hrest⟩ := hfirst
+    unfold msgDataTryFrom
+    rw [hrest]
+    simp only
+    have h30 : ¬ (0x30 : UInt8).toNat = tagOctetString := by decide
+    rw [if_neg h30, ← hrest]
+    have := C11.scoped_roundtrip s e [] (hr s rfl) hs hl
+    simp only [List.append_nil] at this
+    rw [this]
+    rfl
+  | encrypted ct =>
+    simp only [encMsgData, Option.some.injEq] at he; subst he
+    have hge := tlvBytes_length_ge (UInt8.ofNat tagOctetString) ct
+    have hfirst : ∃ rest, tlvBytes (UInt8.ofNat tagOctetString) ct = 0x04 :: rest :=
+      tlvBytes_head (UInt8.ofNat tagOctetString) ct
+    obtain ⟨rest, hrest⟩ := hfirst
+    unfold msgDataTryFrom
+    rw [hrest]
+    simp only
+    have h04 : (0x04 : UInt8).toNat = tagOctetString := by decide
+    rw [if_pos h04, ← hrest]
+    have := fromBer_octets ct [] (by omega)
+    simp only [List.append_nil] at this
+    rw [this]
+    rfl
+
+/-- **C15.msg_v3**: every v3 message the library serialises (any flags, USM parameters, plaintext or
+encrypted msgData) is read back by its own decoder as the same message -/
+theorem msg_v3 (m : V3Msg) (enc : Bytes) (he : encV3 m = some enc) (hl : enc.length < 65536)
+    (hid : I64 m.msgId) (hb : I64 m.usm.engineBoots) (ht : I64 m.usm.engineTime)
+    (hr : ∀ s, m.data = .plaintext s → s.pdu.InRange) : v3TryFrom enc = .ok m := by
+  unfold encV3 at he
+  cases hd : encMsgData m.data with
+  | none => rw [hd] at he; cases he
+  | some d =>
+    rw [hd] at he; simp only [Option.map_some, Option.some.injEq] at he; subst he
+    have hge := tlvBytes_length_ge 0x30 (encV3Body m d)
+    have hbody : (encV3Body m d).length < 65536 := by omega
+    unfold v3TryFrom
+    have := fromBer_seq (encV3Body m d) [] hbody
+    simp only [List.append_nil] at this
+    rw [this]
+    simp only [bind_ok, List.isEmpty_nil, Bool.not_true, Bool.false_eq_true, if_false]
+    unfold encV3Body at hbody ⊢
+    have hver : ([UInt8.ofNat tagInt, 1, UInt8.ofNat snmpV3] : Bytes) = encInt (snmpV3 : Int) := encInt_small snmpV3 (by decide)
+    rw [hver, fromBer_encInt _ (by decide) (by decide)]
+    simp only [bind_ok]
+    rw [if_neg (by simp)]
+    unfold encV3Header v3Tail at hbody ⊢
+    have hgh := tlvBytes_length_ge 0x30 (v3HdrContent m)
+    have hgu := tlvBytes_length_ge (UInt8.ofNat tagOctetString) (encUsm m.usm)
+    simp only [List.length_append, List.length_cons, List.length_nil] at hbody
+    rw [fromBer_seq _ _ (by omega)]
+    simp only [bind_ok]
+    unfold v3HdrContent
+    rw [fromBer_encInt _ hid.1 hid.2]
+    simp only [bind_ok]
+    rw [fromBer_encInt _ (by decide) (by decide)]
+    simp only [bind_ok]
+    have hfl : tagLenBytes (UInt8.ofNat tagOctetString) 1 ++ ([UInt8.ofNat (flagOctet m)] ++
+        [UInt8.ofNat tagInt, 1, UInt8.ofNat usmModel]) =
+        tlvBytes (UInt8.ofNat tagOctetString) [UInt8.ofNat (flagOctet m)] ++ [UInt8.ofNat tagInt, 1, UInt8.ofNat usmModel] := by
+      simp [tlvBytes]
+    rw [hfl, fromBer_octets _ _ (by simp)]
+    simp only [bind_ok, List.length_cons, List.length_nil]
+    rw [if_neg (by simp)]
+    simp only [idx, List.getElem?_cons_zero, bind_ok]
+    have hmodel : ([UInt8.ofNat tagInt, 1, UInt8.ofNat usmModel] : Bytes) = encInt (usmModel : Int) ++ [] := by
+      rw [List.append_nil]; exact encInt_small usmModel (by decide)
+    rw [hmodel, fromBer_encInt _ (by decide) (by decide)]
+    simp only [bind_ok]
+    rw [if_neg (by simp)]
+    rw [fromBer_octets _ _ (by omega)]
+    simp only [bind_ok]
+    rw [usm_roundtrip m.usm hb ht (by omega)]
+    simp only [bind_ok]
+    rw [msgdata_roundtrip m.data d hd (by omega) hr]
+    simp only [bind_ok]
+    have hflag : flagOctet m < 8 := by
+      unfold flagOctet Gen.flagAuth Gen.flagPriv Gen.flagReport
+      cases m.flagAuth <;> cases m.flagPriv <;> cases m.flagReport <;> decide
+    have hfo : (UInt8.ofNat (flagOctet m)).toNat = flagOctet m := ofNat_toNat (by omega)
+    rw [hfo]
+    have h1 : (flagOctet m % 2 = 1) = (m.flagAuth = true) := by
+      unfold flagOctet Gen.flagAuth Gen.flagPriv Gen.flagReport
+      cases m.flagAuth <;> cases m.flagPriv <;> cases m.flagReport <;> decide
+    have h2 : (flagOctet m / 2 % 2 = 1) = (m.flagPriv = true) := by
+      unfold flagOctet Gen.flagAuth Gen.flagPriv Gen.flagReport
+      cases m.flagAuth <;> cases m.flagPriv <;> cases m.flagReport <;> decide
+    have h3 : (flagOctet m / 4 % 2 = 1) = (m.flagReport = true) := by
+      unfold flagOctet Gen.flagAuth Gen.flagPriv Gen.flagReport
+      cases m.flagAuth <;> cases m.flagPriv <;> cases m.flagReport <;> decide
+    simp only [h1, h2, h3, decide_eq_true_eq, Bool.decide_eq_true]
+    rfl
 
 end GufoSnmp.C15
